@@ -74,6 +74,30 @@ theorem decode_encode_sync (nf np : Option Nat) (g : Frame)
     show (11:Nat) = 10 ↔ False by decide, if_false, if_true, Option.some.injEq] at h
   exact ⟨_, _, h.symm⟩
 
+/-- Whatever an emitted sync frame parses to, it is a sync frame carrying the emitted packet id
+(modulo `2^32`), if any. -/
+theorem decode_encode_sync_pid (nf np : Option Nat) (g : Frame)
+    (h : decode (encode (.sync nf np)) = some g) : ∃ nf', g = .sync nf' (np.map (· % 2^32)) := by
+  unfold encode at h
+  simp only [encodeBody, be32, List.cons_append, List.nil_append, List.append_assoc] at h
+  rw [decode_withCrc] at h
+  simp only [readPayload, HANDSHAKE_SYN_FRAME_ID, HANDSHAKE_SYN_ACK_FRAME_ID, HANDSHAKE_ACK_FRAME_ID,
+    HANDSHAKE_ERROR_FRAME_ID, DISCONNECT_FRAME_ID, DISCONNECT_ACK_FRAME_ID, DATA_FRAME_ID, SYNC_FRAME_ID,
+    show (11:Nat) = 0 ↔ False by decide, show (11:Nat) = 1 ↔ False by decide, show (11:Nat) = 2 ↔ False by decide,
+    show (11:Nat) = 3 ↔ False by decide, show (11:Nat) = 4 ↔ False by decide, show (11:Nat) = 5 ↔ False by decide,
+    show (11:Nat) = 10 ↔ False by decide, if_false, if_true, Option.some.injEq] at h
+  subst h
+  refine ⟨(if ((if nf.isSome = true then 1 else 0) + if np.isSome = true then 2 else 0) % 2 = 1 then
+      some (rd32 (nf.getD 0 / 2 ^ 24 % 256) (nf.getD 0 / 2 ^ 16 % 256) (nf.getD 0 / 2 ^ 8 % 256) (nf.getD 0 % 256))
+    else none), ?_⟩
+  congr 1
+  cases np with
+  | none => cases nf <;> simp
+  | some x =>
+    have : rd32 (x / 2 ^ 24 % 256) (x / 2 ^ 16 % 256) (x / 2 ^ 8 % 256) (x % 256) = x % 2^32 := by
+      unfold rd32; omega
+    cases nf <;> simp [this]
+
 /-- Whatever an emitted data frame parses to, it is a data frame. -/
 theorem decode_encode_data_kind (sid : Nat) (nonce : Bool) (dgs : List Datagram) (g : Frame)
     (h : decode (encode (.data sid nonce dgs)) = some g) : ∃ sid' nonce' dgs', g = .data sid' nonce' dgs' := by
